@@ -13,6 +13,10 @@ CHECKS = {
    "TLA+ cursor model Reader.tla model-checked by TLC; every TLC-enumerated (source, segments, cursor, saved positions, call) transition replayed on real text.Reader/BlockReader values under every cache state (fill -> move -> query); random call traces validated by TLC against TraceReader.tla",
    "TLC enumerates all sources up to length 3 (thorough: 4) over tab/newline/letter and bracket alphabets, for the block reader all lists of padded line segments, and every call sequence as a graph over (cursor, saved positions); each transition is executed on the real readers from its shortest path after each subset of the cache-filling queries, followed by every query of the successor state, plus random walks; 400+ random call sequences on sources up to 27 bytes (CR, brackets, back-ticks, backslashes) are logged with their replies and validated by TLC. Exhaustive within the bounds: model checking with conformance replay.",
    "TLC, Json module; documented preconditions encoded as CallOk in Reader.tla (listed in the evidence assumptions)", "DESIGN.md 3.2, 5/C18"),
+ "C19": ("model_checking",
+   "TLA+ spec BytesFilter.tla model-checked by TLC and every enumerated New/Add/Extend transition replayed on real util.BytesFilter values; law predicates of UtilLaws.tla evaluated by TLC on (function, input, output) pairs recorded from the real util functions",
+   "BytesFilter half: TLC enumerates all states of up to 3 filters over 5 (thorough: 6) keys that collide in one hash bucket and share 3-byte prefixes, every Add/Extend(0..1 keys) transition is executed on real filters through both constructor families and the whole Contains table compared; exhaustive within bounds. Laws half: TLC is a law evaluator over ~56k (thorough ~1M) recorded pairs: all byte strings up to length 3 (4) over a 20-byte alphabet for each function, every rune with a non-trivial simple-fold orbit as a label case variant, structured and random longer strings. The first half is model checking with conformance replay; the second is exploration judged by TLA+ predicates.",
+   "TLC, Json/IOUtils; unicode.SimpleFold for case variants; keys picked with a re-implemented hash", "DESIGN.md 3.12, 5/C19"),
 }
 
 NOT_YET = "check not built yet in this revision of /verif (see DESIGN.md section 5 for the planned TLA+ decision procedure)"
